@@ -497,6 +497,16 @@ pub fn kernel_op_with_pool(rng: &mut Rng, s: &State, which: Option<usize>, pool:
         while v.len() < k {
             v.push(if rng.chance(0.5) { 0 } else { *rng.pick(&linked) });
         }
+        // a spare that is not free, at a random position: preferably one that is non-free through
+        // a single image only (head or tail of an open path, a 2-sewn dart without neighbours)
+        if !v.is_empty() && rng.chance(0.1) {
+            let partial: Vec<u32> = linked.iter().copied().filter(|&d| (0..3u8).filter(|&i| s.b(i, d) != 0).count() == 1).collect();
+            let bad = if !partial.is_empty() && rng.chance(0.7) { *rng.pick(&partial) } else if rng.chance(0.2) { 0 } else { *rng.pick(&linked) };
+            let j = rng.below(v.len());
+            if !v.contains(&bad) {
+                v[j] = bad;
+            }
+        }
         v
     };
     let pe = s.partition(1);
@@ -572,6 +582,9 @@ fn rng_coin(d: u32) -> bool {
 /// A simple polygon with `n` sides, counter-clockwise. kind 0: strictly convex; 1: star-shaped
 /// around the origin with reflex vertices; 2: like 1 with stronger radius variation.
 pub fn polygon(rng: &mut Rng, n: usize, kind: usize) -> Vec<[f64; 2]> {
+    if kind >= 3 {
+        return general_polygon(rng, n);
+    }
     loop {
         // sorted angles with a minimum gap
         let mut gaps: Vec<f64> = (0..n).map(|_| 0.35 + rng.unit()).collect();
@@ -597,6 +610,48 @@ pub fn polygon(rng: &mut Rng, n: usize, kind: usize) -> Vec<[f64; 2]> {
             && crate::mesh::signed_area(&bits) > 1e-3
             && (kind != 0 || crate::koracle::strictly_convex(&bits));
         if ok {
+            return pts;
+        }
+    }
+}
+
+/// kind 3: a general simple polygon (not star-shaped in general: spirals, combs, pockets) — random
+/// points in a box in random cyclic order, crossings removed by 2-opt reversals (each reversal
+/// shortens the perimeter, so this terminates), counter-clockwise.
+fn general_polygon(rng: &mut Rng, n: usize) -> Vec<[f64; 2]> {
+    use crate::mesh::{cross, fp};
+    loop {
+        let mut pts: Vec<[f64; 2]> = (0..n).map(|_| [3.0 + 4.0 * (rng.unit() - 0.5), -2.0 + 4.0 * (rng.unit() - 0.5)]).collect();
+        let mut rounds = 0;
+        'untangle: loop {
+            rounds += 1;
+            if rounds > 500 {
+                break;
+            }
+            for i in 0..n {
+                for j in i + 2..n {
+                    if i == 0 && j == n - 1 {
+                        continue;
+                    }
+                    let (a, b, c, d) = (pts[i], pts[i + 1], pts[j], pts[(j + 1) % n]);
+                    let (pa, pb, pc, pd) = (fp(a[0], a[1]), fp(b[0], b[1]), fp(c[0], c[1]), fp(d[0], d[1]));
+                    let (d1, d2, d3, d4) = (cross(pc, pd, pa), cross(pc, pd, pb), cross(pa, pb, pc), cross(pa, pb, pd));
+                    if (d1 > 0.0) != (d2 > 0.0) && (d3 > 0.0) != (d4 > 0.0) {
+                        pts[i + 1..=j].reverse();
+                        continue 'untangle;
+                    }
+                }
+            }
+            break;
+        }
+        let mut bits: Vec<crate::mesh::P> = pts.iter().map(|p| fp(p[0], p[1])).collect();
+        if crate::mesh::signed_area(&bits) < 0.0 {
+            pts.reverse();
+            bits.reverse();
+        }
+        // vertices well apart, so that the in-ear tests of the kernels are far from rounding
+        let apart = (0..n).all(|i| (i + 1..n).all(|j| (pts[i][0] - pts[j][0]).hypot(pts[i][1] - pts[j][1]) > 0.15));
+        if apart && crate::koracle::polygon_is_simple(&bits) && crate::koracle::general_position(&bits) && crate::mesh::signed_area(&bits) > 1e-2 {
             return pts;
         }
     }
